@@ -75,6 +75,11 @@ type c09Case struct {
 	GapMs         int      `json:"gap_ms"`
 	FilterSleepMs int      `json:"filter_sleep_ms"` // the client filter sleeps this long before the call is invoked
 	ReadNs        int      `json:"read_ns"`         // with read_ms = 0: the read timeout in nanoseconds (0 = none)
+	Proxies       int      `json:"proxies"`         // 2: odd callers use a second proxy (another object, its own adapter and connection) of the same process
+	KeepAliveMs   int      `json:"keep_alive_ms"`   // > 0: the client's keep-alive-interval
+	KaPattern     []int    `json:"ka_pattern"`      // after every call: pause (ms) before each trigger of the adapters' keep-alive ping
+	ProxyByCall   bool     `json:"proxy_by_call"`   // with two proxies: the j-th call of every caller uses proxy j mod 2 (otherwise caller k uses proxy k mod 2)
+	SmallAfter    int      `json:"small_after"`     // > 0: calls from the j-th on carry 8-byte requests whatever req_size says
 	HandshakeMs   int      `json:"handshake_ms"`    // tls-slow: delay of the peer's side of the TLS handshake
 	IdleMs        int      `json:"idle_ms"`         // > 0: the client's idle timeout (the sender goroutine checks it once per second)
 	Gaps          []int    `json:"gaps"`            // pause after the j-th call of a caller (overrides gap_ms; the last one repeats)
@@ -153,6 +158,7 @@ func c09RunScenario(c *c09Case) *c09Obs {
 	}
 	peer, err := newC09Peer(log, c.Conn, c.Acts, func(p *c09Peer) {
 		p.earlyMs, p.earlyN, p.hsMs = c.EarlyMs, c.Callers*c.Calls, c.HandshakeMs
+		p.sweepT, p.sweepCalls = c.eff(), c.Calls
 		if tlsm != nil {
 			p.tlsConf = tlsm.server
 			if c.Conn == "tls-untrusted" {
@@ -200,20 +206,40 @@ func c09RunScenario(c *c09Case) *c09Obs {
 	if c.Warm {
 		tars.VerifWarmAdapter(sp)
 	}
+	sps := []*tars.ServantProxy{sp}
+	if c.Proxies > 1 {
+		h2 := &c09Holder{}
+		comm.StringToProxy(fmt.Sprintf("VerifApp.C09Server.C09Other@%s -h 127.0.0.1 -p %d -t 60000", proto, peer.port), h2)
+		if sp2, ok := h2.s.(*tars.ServantProxy); ok {
+			sp2.TarsSetTimeout(c.TimeoutMs)
+			if c.Warm {
+				tars.VerifWarmAdapter(sp2)
+			}
+			sps = append(sps, sp2)
+		}
+	}
+	if c.KeepAliveMs > 0 {
+		comm.Client.KeepAliveInterval = c.KeepAliveMs
+	}
 
 	var amu sync.Mutex
 	adps := map[*tars.AdapterProxy]bool{}
 	snapshot := func() (int32, int32, []int32) {
 		amu.Lock()
-		for _, a := range tars.VerifAdapters(sp) {
-			adps[a] = true
+		var q, n int32
+		for _, p := range sps {
+			for _, a := range tars.VerifAdapters(p) {
+				adps[a] = true
+			}
+			q += tars.VerifQueueLen(p)
+			n += tars.VerifInvokeNum(p)
 		}
 		var ids []int32
 		for a := range adps {
 			ids = append(ids, tars.VerifPending(a)...)
 		}
 		amu.Unlock()
-		return tars.VerifQueueLen(sp), tars.VerifInvokeNum(sp), ids
+		return q, n, ids
 	}
 	seq := c.Callers == 1
 	var vmu sync.Mutex
@@ -302,7 +328,11 @@ func c09RunScenario(c *c09Case) *c09Obs {
 	var wg sync.WaitGroup
 	start := make(chan struct{})
 	doCall := func(call, k int) {
-		buf := make([]byte, size)
+		bsize := size
+		if c.SmallAfter > 0 && c.Calls > 0 && call%c.Calls >= c.SmallAfter {
+			bsize = 8
+		}
+		buf := make([]byte, bsize)
 		tag := uint32(0xA0000000) | uint32(call)
 		buf[0], buf[1], buf[2], buf[3] = byte(tag>>24), byte(tag>>16), byte(tag>>8), byte(tag)
 		ctx := current.ContextWithClientCurrent(context.WithValue(context.Background(), c09CtxKey{}, call))
@@ -320,7 +350,13 @@ func c09RunScenario(c *c09Case) *c09Obs {
 		if c.OneWay {
 			ctype = byte(basef.TARSONEWAY)
 		}
-		err := sp.TarsInvoke(ctx, ctype, "echo", buf, nil, nil, &resp)
+		psp := sps[0]
+		if c.ProxyByCall && c.Calls > 0 && k >= 0 {
+			psp = sps[(call%c.Calls)%len(sps)]
+		} else if k > 0 {
+			psp = sps[k%len(sps)]
+		}
+		err := psp.TarsInvoke(ctx, ctype, "echo", buf, nil, nil, &resp)
 		dur := time.Since(t0)
 		cancel()
 		out, es := "reply", ""
@@ -359,7 +395,17 @@ func c09RunScenario(c *c09Case) *c09Obs {
 			<-start
 			for j := 0; j < c.Calls; j++ {
 				doCall(k*c.Calls+j, k)
-				if g := c.gap(j); g > 0 && j+1 < c.Calls {
+				t1 := time.Now()
+				// the adapters' keep-alive ping, triggered inside and outside the keep-alive interval: it must leave the counters alone
+				for i, pause := range c.KaPattern {
+					time.Sleep(time.Duration(pause) * time.Millisecond)
+					for _, p := range sps {
+						tars.VerifC08KeepAlive(p)
+					}
+					q, n, pn := snapshot()
+					checkSeq(fmt.Sprintf("after keep-alive trigger %d following", i), k*c.Calls+j, q, n, pn, 0)
+				}
+				if g := c.gap(j) - int(time.Since(t1).Milliseconds()); g > 0 && j+1 < c.Calls {
 					time.Sleep(time.Duration(g) * time.Millisecond)
 				}
 			}
@@ -477,7 +523,20 @@ func c09Stuck() []string {
 // ---------------------------------------------------------------------------------------------------------------
 // parent: run a scenario in a child, monitors
 
+// c09Exec runs the scenario in a child process. A call that hangs is reported by the child's own watchdog well inside the
+// child's time limit, so a child that produces no report at all (killed at the limit, crashed at start) is re-run twice
+// before it is reported as a failed scenario process.
 func c09Exec(c *c09Case) *c09Obs {
+	var obs *c09Obs
+	for try := 0; try < 3; try++ {
+		if obs = c09ExecOnce(c); obs.Fatal == "" || !strings.HasPrefix(obs.Fatal, "worker failed") {
+			break
+		}
+	}
+	return obs
+}
+
+func c09ExecOnce(c *c09Case) *c09Obs {
 	in := *c
 	in.Obs = nil
 	b, _ := json.Marshal(in)
@@ -1120,6 +1179,34 @@ func c09Gen(tier string, rng *rand.Rand) []c09Case {
 		c.Calls = 2
 		c.Predict = false
 		cs = append(cs, c)
+		// ---- replies timed at the caller's deadline (-3..+5 ms in 1 ms steps), each followed at once by another call that is
+		// still waiting while the late reply is around; two proxies of the process: every success must carry the caller's
+		// own payload (either outcome of the raced call is right: monitors and trace validation only)
+		for i := 0; i < 2; i++ {
+			c = base("deadline-sweep", "accept", []c09Act{{Do: "sweep"}})
+			c.TimeoutMs = 100
+			c.ReadMs = 100
+			c.QueueLen = 1000
+			c.Callers = pick(16, 24, 32)
+			c.Calls = 6
+			c.Proxies = 2
+			c.Predict = false
+			cs = append(cs, c)
+		}
+		// ---- the adapters' keep-alive ping, triggered inside and outside the configured keep-alive interval between calls:
+		// queueLen / pending table / invokeNum are exactly restored after each trigger
+		for _, ka := range []int{0, 1000, pick(2000, 3000)} {
+			c = base("keep-alive-triggers", "accept", rep(0))
+			c.KeepAliveMs = ka
+			c.KaPattern = []int{0, 30, ka + 100, 20}
+			c.Calls = 2
+			c.GapMs = ka + 200
+			c.Proxies = pick(1, 2)
+			if ka > 1000 && tier != "thorough" {
+				c.Calls = 1
+			}
+			cs = append(cs, c)
+		}
 		// datagram transport: no connection to establish or lose
 		c = base("udp-mixed-sequential", "udp", nil)
 		T = c.TimeoutMs
@@ -1190,6 +1277,24 @@ func c09Gen(tier string, rng *rand.Rand) []c09Case {
 		c.Callers = pick(4, 5)
 		c.EarlyMs = 50
 		c.ReqSize = 8 << 20
+		cs = append(cs, c)
+		// ... with a read timeout longer than the write timeout: the receivers still hold the channels of callers that have
+		// given up when those callers call again (a late reply must not reach the next call; which calls get through the full
+		// queue is a race: monitors and trace validation only)
+		c = base("never-reading-peer-early-replies-then-more", "noread-early", []c09Act{{Do: "none"}})
+		c.TimeoutMs = 200
+		c.DialMs = 200
+		c.WriteMs = 500
+		c.ReadMs = 800
+		c.QueueLen = 1
+		c.Callers = pick(4, 5)
+		c.Calls = 2
+		c.EarlyMs = 50
+		c.ReqSize = 8 << 20
+		c.Proxies = 2
+		c.ProxyByCall = true // the second calls go to another proxy of the process, with small requests: they all reach their wait
+		c.SmallAfter = 1
+		c.Predict = false
 		cs = append(cs, c)
 		c = base("never-reading-peer-room", "noread", []c09Act{{Do: "none"}})
 		c.QueueLen = 100
